@@ -10,6 +10,7 @@ import (
 	"log/slog"
 	"math"
 	"net/url"
+	"sort"
 	"strings"
 	"time"
 
@@ -425,6 +426,12 @@ func splitPeriod(mpd *m.MPD, a *asset, cfg *ResponseConfig, wTimes wrapTimes) er
 	if periodDur*1000%a.SegmentDurMS != 0 {
 		return badConfigError{fmt.Sprintf("period duration %ds not a multiple of segment duration %dms", periodDur, a.SegmentDurMS)}
 	}
+	// SegmentDurMS is an average over all tracks: segments of 2.002s give 2000ms when another track is a little shorter.
+	// What is needed is that every period starts where a segment of the reference track starts, in every loop.
+	if a.refRep != nil && !periodsStartAtSegmentStarts(a.refRep, periodDur) {
+		return badConfigError{fmt.Sprintf("period duration %ds: periods do not start at segment boundaries of representation %s",
+			periodDur, a.refRep.ID)}
+	}
 
 	// Period@start and the media timeline are relative to availabilityStartTime, so the period numbers must be as well
 	astMS := cfg.StartTimeS * 1000
@@ -481,6 +488,29 @@ func splitPeriod(mpd *m.MPD, a *asset, cfg *ResponseConfig, wTimes wrapTimes) er
 		mpd.AppendPeriod(p)
 	}
 	return nil
+}
+
+// periodsStartAtSegmentStarts checks that every multiple of the period duration is the start of a segment of the
+// looped representation. The starts of the periods relative to the loop are the multiples of gcd(period, loop).
+func periodsStartAtSegmentStarts(rep *RepData, periodDurS int) bool {
+	loopDur := rep.duration()
+	periodDur := periodDurS * rep.MediaTimescale
+	if loopDur <= 0 || periodDur <= 0 || len(rep.Segments) == 0 {
+		return false
+	}
+	step, r := periodDur, loopDur
+	for r != 0 {
+		step, r = r, step%r
+	}
+	first := rep.Segments[0].StartTime
+	for t := 0; t < loopDur; t += step {
+		want := first + uint64(t)
+		i := sort.Search(len(rep.Segments), func(i int) bool { return rep.Segments[i].StartTime >= want })
+		if i == len(rep.Segments) || rep.Segments[i].StartTime != want {
+			return false
+		}
+	}
+	return true
 }
 
 func reduceS(entries []*m.S, startNr *uint32, timescale int, periodStartS, periodEndS uint64) ([]*m.S, *uint32) {
